@@ -340,10 +340,11 @@ class ExceptionTrace(object):
     def _render_snippet(self, io, frame):
         self._render_line(
             io,
-            "at <fg=green>{}</>:<b>{}</b> in <fg=cyan>{}</>".format(
-                self._get_relative_file_path(frame.filename),
+            # File and function names are text ("<string>", "<lambda>"...), not markup
+            "at {}:<b>{}</b> in {}".format(
+                styled("fg=green", self._get_relative_file_path(frame.filename)),
                 frame.lineno,
-                frame.function,
+                styled("fg=cyan", frame.function),
             ),
             True,
         )
@@ -430,12 +431,15 @@ class ExceptionTrace(object):
                 for frame in collection:
                     self._render_line(
                         io,
-                        "<fg=yellow>{:>{}}</>  <fg=default;options=bold>{}</>:<b>{}</b> in <fg=cyan>{}</>".format(
+                        "<fg=yellow>{:>{}}</>  {}:<b>{}</b> in {}".format(
                             i,
                             max_frame_length,
-                            self._get_relative_file_path(frame.filename),
+                            styled(
+                                "fg=default;options=bold",
+                                self._get_relative_file_path(frame.filename),
+                            ),
                             frame.lineno,
-                            frame.function,
+                            styled("fg=cyan", frame.function),
                         ),
                         True,
                     )
